@@ -978,6 +978,16 @@ class Interp:
         if mdl is not None:
             self.stats["models_used"].add(mdl.__name__)
             return self.apply_model(st, mdl, args, dest, ret, callee)
+        # an in-crate body that was not among the functions the kernel asked for: load it from the full MIR
+        if getattr(self, "lazy", True) and not re.match(r"^(std|core|alloc)::|^<(std|core|alloc)::", tf):
+            try:
+                import kernels
+                name = kernels.lazy_lookup(self.funcs, callee, self.strip_all_generics)
+            except Exception:
+                name = None
+            if name is not None and len(self.funcs[name].args) == len(args):
+                self.stats.setdefault("lazy_loaded", set()).add(name)
+                return self.push(st, name, args, dest, ret)
         self.stats["unmodelled"].add(tf)
         return self.apply_model(st, lambda I, s, a: SOpaque(f"ret:{tf}", taint=True), args, dest, ret, callee)
 
@@ -1022,12 +1032,24 @@ class Interp:
             return "continue"
         return succs
 
-    def closure_body(self, cname):
+    def closure_body(self, cname, _retry=True):
         """{closure@file:l:c: l:c}  ->  function whose first argument has that closure type"""
         loc = cname
         for name, fn in self.funcs.items():
             if "{closure#" in name and fn.args and fn.args[0][1].replace("&", "").replace("mut ", "").strip() == loc:
                 return name
+        if _retry and getattr(self, "lazy", True):
+            # closures of the loaded bodies that the kernel's own selection did not include (e.g. newly written ones)
+            try:
+                import kernels
+                import mir as _mir
+                parents = {n for n in self.funcs if not n.startswith("const ")}
+                want = {n for n, _ in kernels.full_index() if "::{closure#" in n and n.split("::{closure#")[0] in parents and n not in self.funcs}
+                if want:
+                    self.funcs.update(_mir.parse_file(kernels.emit_mir(), want=lambda n: n in want))
+                    return self.closure_body(cname, _retry=False)
+            except Exception:
+                pass
         return None
 
 
